@@ -6,7 +6,10 @@ wt=/tmp/seedrun-$seed-$$
 git -C /repo worktree add -q --detach $wt HEAD || exit 2
 tag=$(echo "$wt" | md5sum | cut -c1-8)
 trap 'git -C /repo worktree remove --force '$wt' 2>/dev/null; rm -f /verif/bin/vcheck*-alt-'$tag'* /verif/harness/.alt/'$tag'.*' EXIT
-if ! git -C $wt apply /verif/seeded/$seed/patch.diff; then echo "SEED-APPLY-FAILED $seed"; exit 3; fi
+pf=/verif/seeded/$seed/patch.diff
+# a seed whose context was changed by a later fix: commit has a re-based copy of the same change
+[ -f /verif/seeded/$seed/patch.current.diff ] && pf=/verif/seeded/$seed/patch.current.diff
+if ! git -C $wt apply $pf; then echo "SEED-APPLY-FAILED $seed"; exit 3; fi
 cd /verif
 out=$(VERIF_REPO=$wt VERIF_DIR_EVIDENCE_SKIP=1 ./check $id $tier 2>&1); rc=$?
 echo "$out" | grep -E "^(VIOLATION|KNOWN-FINDING|SUMMARY|INCONCLUSIVE|BUILD-FAILED)" | cut -c1-300 | head -12
